@@ -1,4 +1,5 @@
 import MobiusModel.Tree
+import MobiusModel.Generated.Consts
 /-!
   C10 — Folder transfers reproduce the tree, item by item.
 
@@ -49,6 +50,12 @@ theorem headers_are_visible_entries (t : Node) (acts : List Action) (hacts : t.i
   unfold downloadFolder
   rw [downloadItems_headers _ _ hacts]
   rfl
+
+/-- **Each visible file and sub-folder exactly once**: the items are a permutation of the visible
+    nodes of the tree below the requested folder (plain traversal, which lists every node once). -/
+theorem items_are_the_visible_nodes_once (t : Node) :
+    t.items.Perm (((t.preorder []).drop 1).filter Entry.visible) :=
+  (walk_tail_perm_preorder t []).filter _
 
 /-- **Paths are relative to the requested folder**: an item header is the size (2 + encoded path
     length), the kind (1 = folder), and the path items of the entry's relative path, one per component. -/
@@ -229,6 +236,17 @@ theorem download_after_upload_same_tree (t t' : Node) (acts : List Action)
   unfold downloadFolder
   rw [downloadItems_headers _ _ hacts, downloadItems_headers _ _ (by omega)]
   exact ⟨h1, h2⟩
+
+/-! Obligations over the constants regenerated from /repo's source on every run. -/
+
+/-- The action codes of the item dialogue (`Answer.bytes`, `Action`) and the transfer types. -/
+theorem generated_folder_actions :
+    Generated.miscConsts.lookup "DlFldrActionSendFile" = some 1 ∧
+    Generated.miscConsts.lookup "DlFldrActionResumeFile" = some 2 ∧
+    Generated.miscConsts.lookup "DlFldrActionNextFile" = some 3 ∧
+    Generated.miscConsts.lookup "FolderDownload" = some 2 ∧
+    Generated.miscConsts.lookup "FolderUpload" = some 3 ∧
+    Generated.stringConsts.lookup "IncompleteFileSuffix" = some ".incomplete" := by decide
 
 -- ---------------------------------------------------------------- non-vacuity
 
